@@ -1,5 +1,6 @@
 from dataclasses import dataclass, field
 import importlib.util
+import inspect
 import os
 import sys
 from typing import Any, Dict
@@ -10,6 +11,27 @@ from jinja2 import FileSystemLoader
 from sigma.exceptions import SigmaSecurityError
 
 PYSIGMA_ALLOW_VARS_EXECUTION_ENV = "PYSIGMA_ALLOW_VARS_EXECUTION"
+
+
+class TemplateSandboxedEnvironment(SandboxedEnvironment):
+    """Jinja sandbox for templates that are contained in (possibly untrusted) processing pipelines.
+
+    The templates get live objects (rule, pipeline). In addition to the restrictions of the Jinja
+    sandbox, classes and class methods are not accessible from these objects. Otherwise a template
+    could call loaders like ``pipeline.from_dict(..., allow_external_sources=True)`` and grant
+    itself the capabilities that must be explicitly enabled by the caller. File system path objects
+    (e.g. ``rule.source.path``) are not accessible because they allow to read and write files.
+    """
+
+    def is_safe_attribute(self, obj: Any, attr: str, value: Any) -> bool:
+        if (
+            inspect.isclass(value)
+            or (inspect.ismethod(value) and inspect.isclass(value.__self__))
+            or isinstance(obj, os.PathLike)
+            or isinstance(value, os.PathLike)
+        ):
+            return False
+        return super().is_safe_attribute(obj, attr, value)
 
 
 @dataclass
@@ -47,10 +69,10 @@ class TemplateBase:
 
     def __post_init__(self) -> None:
         if self.path is None:
-            env = SandboxedEnvironment(autoescape=self.autoescape)
+            env = TemplateSandboxedEnvironment(autoescape=self.autoescape)
             self.j2template = env.from_string(self.template)
         else:
-            env = SandboxedEnvironment(
+            env = TemplateSandboxedEnvironment(
                 autoescape=self.autoescape, loader=FileSystemLoader(self.path)
             )
             self.j2template = env.get_template(self.template)
